@@ -100,6 +100,10 @@ type Resolvable struct {
 	// suppressed there — the walk only reads the decision cache and emits errors.
 	inUnreachedSubtree bool
 
+	// deferRootNull is set when the initial render of a deferred response null-propagated to
+	// the root ("data":null): no defer may be announced or delivered below it.
+	deferRootNull bool
+
 	// authorizationError holds an auth error raised mid-walk;
 	// in case of defer it is scoped to the current field/defer and converted into a defer local error.
 	authorizationError error
@@ -250,6 +254,7 @@ func (r *Resolvable) Reset() {
 	r.operationType = ast.OperationTypeUnknown
 	r.renameTypeNames = r.renameTypeNames[:0]
 	r.authorization = nil
+	r.deferRootNull = false
 	r.unreachedAuthWalk = false
 	r.inUnreachedSubtree = false
 	r.authorizationError = nil
@@ -427,6 +432,8 @@ func (r *Resolvable) Resolve(ctx context.Context, rootData *Object, fetchTree *F
 		// Announce only the top-level defers whose anchor survived. Nested defers
 		// are announced lazily when their parent is released. A recoverable error
 		// that null-propagated onto a defer's own anchor cancels just that defer.
+		// data is null: nothing below it may be delivered later
+		r.deferRootNull = hasErrors
 		live := r.liveChildDescriptors(0)
 		r.printPendingEntries(live)
 		r.printHasNext(len(live) > 0)
@@ -506,6 +513,10 @@ func (r *Resolvable) ResolveDeferBatch(rootData *Object, out io.Writer, outstand
 	// Direct children whose anchor survived the render are announced now (lazily)
 	// and scheduled by the caller; the rest are cancelled.
 	liveChildren = r.liveChildDescriptors(r.currentDefer.ID)
+	if shouldSkipIncremental {
+		// the fragment delivered nothing: its nested defers have no delivered object to attach to
+		liveChildren = nil
+	}
 
 	// Counter: announce live children, complete self. The frame that drives the
 	// outstanding count to zero writes the terminal hasNext:false. Every defer's
@@ -642,6 +653,9 @@ func (r *Resolvable) deferAnchorAlive(path []string) bool {
 // descriptors, not just ids.
 func (r *Resolvable) liveChildDescriptors(parentID int) map[int]DeferDescriptor {
 	var live map[int]DeferDescriptor
+	if r.deferRootNull {
+		return nil
+	}
 	for id, d := range r.deferDescriptors {
 		if d.ParentID == parentID && r.deferAnchorAlive(d.Path) {
 			if live == nil {
